@@ -46,7 +46,7 @@ def parseReq (s : String) : List (Option Nat × Nat) × Nat :=
       | _ => none, c.toNat?.getD 0)
   | _ => ([], 0)
 
-def drive (body impl : String) : Verdict :=
+def driveOne (body impl : String) : Verdict :=
   match splitTrim body ";" with
   | [head, callsS, waitsS] =>
     match words head with
@@ -90,5 +90,21 @@ def drive (body impl : String) : Verdict :=
                      if out.waits.length ≥ 2 then "multi-wait" else "le1-wait"] }
     | _ => { modelOut := "BADCASE" }
   | _ => { modelOut := "BADCASE" }
+
+/-- several calls on one descriptor in one process: the model is the same function for each call
+(that behaviour depends only on the current mode and script is part of what is checked) -/
+def drive (body impl : String) : Verdict :=
+  let segs := splitTrim body "||"
+  let outs := splitTrim impl "||"
+  let outs := outs ++ List.replicate (segs.length - outs.length) ""
+  let vs := (segs.zip outs).map (fun so => driveOne so.1 so.2)
+  let props := ["C16", "C17", "C18"]
+  let blames := vs.filterMap (·.blame)
+  { modelOut := joinWith " || " (vs.map (·.modelOut)),
+    spec := props.map (fun p =>
+      let fs := vs.flatMap (fun v => (v.spec.filter (fun x => x.1 == p ∧ !x.2.1)).map (·.2.2))
+      (p, fs.isEmpty, joinWith " ; " fs)),
+    labels := (vs.flatMap (·.labels) ++ [if segs.length > 1 then "multi-call" else "single-call"]).eraseDups,
+    blame := if blames.isEmpty then none else some (blames.flatten.eraseDups) }
 
 end Oc.Driver.Nio
